@@ -8,6 +8,7 @@ import (
 	"strconv"
 	"strings"
 	"sync/atomic"
+	"syscall"
 	"time"
 
 	"github.com/bluenviron/gortsplib/v5"
@@ -60,6 +61,7 @@ type instance struct {
 	hang       string          // set when the watchdog fired
 	extraResp  string          // set when a response arrived that no request asked for
 	timeoutCfg *timeoutCfg
+	nCases     int
 }
 
 type timeoutCfg struct {
@@ -315,6 +317,26 @@ func (sn snapshot) String() string {
 	return fmt.Sprintf("conns %s sess %s oc %d %d", ints(sn.conns), sessStr, sn.opened, sn.closed)
 }
 
+// dialFrom connects from 127.0.0.<1+ip>.  Thousands of short connections are made: closing with
+// linger 0 (RST) keeps them out of TIME_WAIT, and the source port is chosen at connect time.
+func dialFrom(ip int, addr string) (net.Conn, error) {
+	d := net.Dialer{Timeout: watchdog}
+	if ip != 0 {
+		d.LocalAddr = &net.TCPAddr{IP: net.IPv4(127, 0, 0, byte(1+ip))}
+		d.Control = func(_, _ string, rc syscall.RawConn) error {
+			return rc.Control(func(fd uintptr) {
+				syscall.SetsockoptInt(int(fd), syscall.IPPROTO_IP, 24 /* IP_BIND_ADDRESS_NO_PORT */, 1) //nolint:errcheck
+			})
+		}
+	}
+	nc, err := d.Dial("tcp", addr)
+	if err != nil {
+		return nil, err
+	}
+	nc.(*net.TCPConn).SetLinger(0) //nolint:errcheck
+	return nc, nil
+}
+
 // serverOpen reports whether the server side of client connection idx is open.
 func (in *instance) serverOpen(idx int) bool {
 	cl, ok := in.clients[idx]
@@ -330,8 +352,7 @@ func (in *instance) doOpen(idx, ip int) string {
 	if _, ok := in.clients[idx]; ok {
 		return "ok" // the model ignores a second open of the same index; generators never do this
 	}
-	d := net.Dialer{LocalAddr: &net.TCPAddr{IP: net.IPv4(127, 0, 0, byte(1+ip))}, Timeout: watchdog}
-	nc, err := d.Dial("tcp", in.addr)
+	nc, err := dialFrom(ip, in.addr)
 	if err != nil {
 		in.hang = "dial: " + err.Error()
 		return "ok"
@@ -677,7 +698,7 @@ func (in *instance) doReq(r Req) (ReqResult, error) {
 
 // freshProbe: a new connection gets an answer to OPTIONS (the server survived the case).
 func (in *instance) freshProbe() error {
-	nc, err := net.DialTimeout("tcp", in.addr, watchdog)
+	nc, err := dialFrom(0, in.addr)
 	if err != nil {
 		return fmt.Errorf("dial after the case: %w", err)
 	}
